@@ -653,6 +653,8 @@ RANDOM_SYMBOLIC = True
 
 
 def _m_randbelow(n):
+    if not RANDOM_SYMBOLIC and type(n) is int:
+        return secrets.randbelow(n)
     hi = (n.hi if isinstance(n, SymInt) else n) - 1
     v = core.CUR.fresh_var("rand", 0, hi)
     if isinstance(n, SymInt):
@@ -662,11 +664,15 @@ def _m_randbelow(n):
 
 def _m_token_bytes(n=32):
     n = concretize(n)
+    if not RANDOM_SYMBOLIC:
+        return secrets.token_bytes(n)
     return SymBytes([core.CUR.fresh_var("randb", 0, 255) for _ in range(n)])
 
 
 def _m_randbits(k):
     k = concretize(k)
+    if not RANDOM_SYMBOLIC:
+        return secrets.randbits(k)
     return core.CUR.fresh_var("rand", 0, (1 << k) - 1)
 
 
